@@ -418,6 +418,18 @@ Definition mem_objects (data : list (pv * mem_entry)) : list pv :=
 Definition mem_query (mode : ts_mode) (data : list (pv * mem_entry)) (q attached comp : list flt) : res (list pv) :=
   apply_filters mode (complete_query q attached comp) (mem_objects data).
 
+(* MemorySource.all_versions: the versions stored under the id, filtered by
+   list(chain(_composite_filters, self.filters)) -- a plain list, no FilterSet *)
+Definition mem_versions (data : list (pv * mem_entry)) (i : pv) : list pv :=
+  match assoc_get i data with
+  | Some (Family vs) => map snd vs
+  | Some (Single o) => [o]
+  | None => []
+  end.
+
+Definition mem_all_versions (mode : ts_mode) (data : list (pv * mem_entry)) (i : pv) (attached comp : list flt) : res (list pv) :=
+  apply_filters mode (comp ++ attached) (mem_versions data i).
+
 (* ------------------------------------------------------------------ *)
 (* AuthSet, _update_allow, _find_search_optimizations                  *)
 
@@ -760,6 +772,10 @@ Definition fs_search (mode : ts_mode) (om : opt_mode) (t : fs) (fl : list flt) :
 Definition fs_query (mode : ts_mode) (om : opt_mode) (t : fs) (q attached comp : list flt) : res (list pv) :=
   fs_search mode om t (complete_query q attached comp).
 
+(* FileSystemSource.all_versions: self.query([Filter("id", "=", stix_id)], _composite_filters=...) *)
+Definition fs_all_versions (mode : ts_mode) (om : opt_mode) (t : fs) (i : pv) (attached comp : list flt) : res (list pv) :=
+  fs_query mode om t [mkf t_id OEq i] attached comp.
+
 (* every file content in the tree (what has been stored) *)
 Definition entry_objects (e : tentry) : list pv :=
   match e with TDir _ files => map snd files | TFile _ o => [o] end.
@@ -943,3 +959,9 @@ Definition show3 (mode : ts_mode) (om : opt_mode) (pop : list pv) (m : list (pv 
   append (show_result_ix pop (q_mem mode om m wrap q att comp)) (append " ## "
   (append (show_result_ix pop (q_fs mode om t wrap q att comp)) (append " ## "
   (show_result_ix pop (comp_query mode om [SMem ma att; SFs tb att] comp q []))))).
+
+(* all_versions(id) with attached filters on the memory source and on the filesystem source.  One result line. *)
+Definition show_av (mode : ts_mode) (om : opt_mode) (pop : list pv) (m : list (pv * mem_entry)) (t : fs)
+           (i : pv) (att : list flt) : string :=
+  append (show_result_ix pop (mem_all_versions mode m i att [])) (append " ## "
+  (show_result_ix pop (fs_all_versions mode om t i att []))).
